@@ -212,6 +212,11 @@ pub async fn setup_leveraged(w: &mut World, m: &mut Mon, r: &mut R, g: usize, le
         return None;
     }
     m.r.count("scen.leveraged_accounts");
+    {
+        // the program's own view of the freshly leveraged account
+        let i = ix::pulse_health(w.accts[a].key, w.risk_metas(a, None, None));
+        let _ = w.exec(m, &[i], &[]).await;
+    }
     Some(Lev { acct: a, user: u, ca, db, borrowed: amt, max_borrow: max })
 }
 
